@@ -33,12 +33,13 @@ CHECKS = {
     'C09': ('model_checking', 'mirsym leaves + z3: identity == de-interleaved ABCD digits in DF5, DF21 and type 28',
             'All 8192 codes with arbitrary surrounding bits, per carrier, by one unsat query each; subtype/emergency enums == their 3-bit fields.', '§2 C09'),
     'C10': ('model_checking', 'mirsym leaves + z3: every interpreted payload field == DO-260B bit slice/scaling; dispatch tables',
-            'Per payload path one obligation per field (f32 scalings compared as IEEE terms), plus ME/BDS/op-status dispatch tables, for all 2^56 payloads under DF17/18/20/21.', '§2 C10'),
+            'Per payload path one obligation per field (f32 scalings compared as IEEE terms), plus ME/BDS/op-status dispatch tables, for all 2^56 payloads under DF17/18/20/21; a full-length DF17/18/20/21 frame is rejected only for the operational-status reserved-bits/version condition.', '§2 C10'),
 }
 
 TRACKER_NOTE = MIRSYM_NOTE + (' Tracker: one inductive step from an arbitrary pre-state satisfying the stated representation '
                 'invariant (k symbolic records); cpr::get_position stubbed as an uninterpreted function with the parity rule; '
-                'BTreeMap modelled with concrete structure / symbolic keys (iteration order not modelled); clock symbolic.')
+                'BTreeMap modelled with concrete structure / symbolic keys (iteration order not modelled); clock symbolic ((s, ns) pairs). '
+                'Counterexamples are replayed natively at the level of the step (model written out as serde JSON, real crates run by /verif/replay_step); roles whose expected value depends on uninterpreted libm / get_position results are reported as not replayable.')
 CHECKS.update({
     'C01': ('model_checking', 'mirsym: every MIR assert/unwrap/bounds check on every path of decode, Display, calculate, get_position and the tracker step is an unsat query',
             'No panic leaf is feasible on any path of Frame::from_bytes (lengths 0..=32 thorough), of Display/calculate on every decoded frame, of get_position on two arbitrary '
@@ -50,7 +51,7 @@ CHECKS.update({
     'C14': ('model_checking', 'mirsym step lemma for attributes/track + symbolic execution of aircraft_details/all_position on arbitrary maps',
             'Latest-wins attributes, untouched other attributes, track = previous track ++ superseded record, invariants (distance iff position, slot parity) re-established; views equal their definitions on arbitrary states.', '§2 C14'),
     'C15': ('model_checking', 'mirsym: prune() from an arbitrary map with symbolic threshold and symbolic (monotone and free-running) clock',
-            'A record survives iff now - last_heard < T seconds (clock error => removed), survivors untouched; a frame for an untracked address yields added + fresh record (step lemma).', '§2 C15'),
+            'A record survives iff now - last_heard < T seconds (clock error => removed), survivors untouched; every frame of an aircraft stamps its record with a clock reading taken while the frame is handled (step lemma, every frame class), so the age prune measures is the time since the most recent message. Counterexamples are replayed natively on the real crates (serde JSON of the model, /verif/replay_step).', '§2 C15'),
 })
 
 CHECKS['C19'] = ('model_checking', 'mirsym: Frame::from_reader over a fault-scheduling reader (forks on every short-read size / Interrupted placement), z3 equality with Frame::from_bytes per (path, schedule)',
@@ -60,7 +61,7 @@ CHECKS['C20'] = ('translation_validation', 'mirsym on two MIR dumps (std / alloc
                  'First half of the property only (serde half: see not_applicable note in DESIGN §3): decode + rendering for every path at lengths 7/14, get_position on two arbitrary reports, and one tracker step per frame class are compared between the two feature configurations; unsat = no input distinguishes the builds.', '§2 C20')
 
 CHECKS['C05'] = ('model_checking', 'mirsym: closed-form f64 terms of get_position / cpr_nl from symbolic execution of the MIR; z3 QF_FP/QF_BV queries per sub-claim; mpmath enclosures for the NL thresholds',
-                 'Decided: parity rule and panic-freedom for all inputs (bit-vector); the 58 NL transition latitudes (each within 1e-7 deg of the Annex formula) and the zone count in each of the 59 zones for every f64 latitude; existence of returned positions with latitude outside [-90,90] and of returned positions for pairs in different NL zones (known findings, witnesses replayed natively). Thorough adds the longitude range and the fmod side condition under a 900 s cap. Accuracy vs. the true position and re-encoding consistency are outside the claim.', '§2 C05')
+                 'Decided: parity rule and panic-freedom for all inputs (bit-vector); the 58 NL transition latitudes (each within 1e-7 deg of the Annex formula) and the zone count in each of the 59 zones for every f64 latitude; latitude in [-90, 270) for every returned position (unsat); existence of returned positions with latitude in (90, 270) and of returned positions for pairs in different NL zones (the two known findings, witnesses replayed natively). Thorough adds longitude in [-180, 180) and the fmod side condition (both unsat within the 900 s cap). Accuracy vs. the true position and re-encoding consistency are outside the claim.', '§2 C05')
 
 CHECKS['C11'] = ('model_checking', 'mirsym: symbolic execution of <Frame as Display>::fmt on every decode path (output = literal/value segments) + z3: branch conditions and printed values equal the per-type template',
                  'For each of the ~46 000 rendering paths (every renderer branch of every frame type) the literal skeleton must be a template alternative and the solver proves the path condition implies that alternative\'s condition and that every printed value term equals the decoded field the template names; non-empty report for every type but DF19.', '§2 C11')
@@ -117,7 +118,7 @@ def main():
              'kind_free_text': 'Kani 0.68 / CBMC harnesses over crc.rs, mode_ac.rs (included with #[path]) and public kernels'},
         ],
         'checks': checks,
-        'notes': 'Solver-based checking of the real code; see DESIGN.md. Known findings: known_findings.jsonl.',
+        'notes': 'Solver-based checking of the real code; see DESIGN.md. Known findings: known_findings.jsonl. The builtin models of std/core used by the symbolic executor are validated against the real std by `python3-vt -m mirsym.selftest` (36 functions, native vs concrete vs symbolic execution). Thorough tier re-decides every 5th unsat verdict with cvc5.',
         'not_applicable': na,
     }
     json.dump(man, open(os.path.join(ROOT, 'MANIFEST.json'), 'w'), indent=1)
